@@ -202,7 +202,10 @@ class Verifier(CallMixin, EvalMixin, ExecMixin, SpecMixin, Base):
                     continue
                 ax.append(z3.ForAll([r, e], z3.Implies(self.classes.isa(cls, smt.CLS[r]), tf(r, e)), patterns=[tf(r, e)]))
         for name, lam, src in C.AXIOMS:
-            ax.append(self.translate_axiom(lam))
+            try:
+                ax.append(self.translate_axiom(lam))
+            except Unsupported:
+                pass  # names of this axiom do not resolve in this function's module: dropping an assumption is sound
         return ax
 
     def translate_axiom(self, lam):
